@@ -120,6 +120,54 @@ def op_stub_update(w, op):
             stub.close()
         except Exception:
             pass
+    # ---- the patched stub, reopened: still a stub-based record, merge must be refused
+    try:
+        again = IH5MFRecord(os.path.join(ldir, r.name), "r")
+    except Exception as e:
+        raise Violation("C10", "patched-stub-unopenable", f"stub + stub-made patch does not reopen at site L: {type(e).__name__}: {e}")
+    try:
+        before = sorted(os.listdir(ldir))
+        try:
+            again.merge_files(Path(os.path.join(ldir, "merged2")))
+            merged = True
+        except Exception:
+            merged = False
+        if merged:
+            raise Violation("C10", "stub-merged", "merge_files on a reopened stub + patch succeeded (the result would pose as the real record but hold placeholders)", shape="reopened")
+        for f in set(os.listdir(ldir)) - set(before):
+            os.unlink(os.path.join(ldir, f))
+    finally:
+        again.close()
+    # ---- a stub built with the generic helpers on a plain IH5Record (init_stub_base)
+    if op.get("plain_stub", True):
+        from metador_core.ih5.skeleton import init_stub_base
+
+        pdir = os.path.join(w.scratch, "siteLplain")
+        shutil.rmtree(pdir, ignore_errors=True)
+        os.makedirs(pdir)
+        mfobj = IH5Manifest.parse_file(Path(os.path.join(ldir, "latest.json")))
+        ps = IH5Record._create(Path(os.path.join(pdir, r.name)))
+        try:
+            init_stub_base(ps, mfobj.user_block.copy(), mfobj.skeleton)
+            ps.commit_patch()
+        finally:
+            ps.close()
+        try:
+            ps = IH5Record(os.path.join(pdir, r.name), "r+")
+        except Exception as e:
+            raise Violation("C10", "plain-stub-unopenable", f"stub made with init_stub_base on an IH5Record cannot be reopened to create a patch: {type(e).__name__}: {e}")
+        pflags = []
+        try:
+            for u in op["ops"]:
+                ok, _ = T.try_apply(ps, u)
+                pflags.append(ok)
+            ps.commit_patch()
+            plain_patch = os.path.basename(str(ps.ih5_files[-1]))
+        finally:
+            ps.close()
+        w.probe("plain_stub_patches")
+    else:
+        plain_patch = None
     # ---- the same update, directly on a clone of the real record
     for f in names:
         shutil.copyfile(os.path.join(w.sut, f), os.path.join(cdir, f))
@@ -138,6 +186,25 @@ def op_stub_update(w, op):
     if flags_stub != flags_clone:
         i = next(j for j, (a, b) in enumerate(zip(flags_stub, flags_clone)) if a != b)
         raise Violation("C10", "update-outcome", f"update op {json.dumps(op['ops'][i])} {'succeeds' if flags_stub[i] else 'fails'} on the stub-based record but {'succeeds' if flags_clone[i] else 'fails'} on the real record", shape=op["ops"][i]["op"])
+    if plain_patch is not None:
+        if pflags != flags_clone:
+            i = next(j for j, (a, b) in enumerate(zip(pflags, flags_clone)) if a != b)
+            raise Violation("C10", "update-outcome", f"update op {json.dumps(op['ops'][i])} behaves differently on the plain stub-based record", shape="plain:" + op["ops"][i]["op"])
+        tmpname = "plainstub-" + plain_patch
+        shutil.copyfile(os.path.join(pdir, plain_patch), os.path.join(w.sut, tmpname))
+        try:
+            try:
+                o = IH5Record([Path(os.path.join(w.sut, f)) for f in names + [tmpname]], "r")
+            except Exception as e:
+                raise Violation("C10", "patch-refused", f"patch made on a plain (init_stub_base) stub is not accepted by the real record: {type(e).__name__}: {e}", shape="plain")
+            try:
+                d, errs = V.dump_tree(o)
+                if errs or d != clone_dump:
+                    raise Violation("C10", "patched-view", f"real record + patch made on a plain stub differs from the direct update: {errs[:2] or V.diff_dumps(clone_dump, d)}", shape="plain")
+            finally:
+                o.close()
+        finally:
+            os.unlink(os.path.join(w.sut, tmpname))
     # ---- message 2: upload patch + manifest through the transport
     fault = op.get("transport", "none")
     w.count_fault("xfer_" + fault)
